@@ -353,23 +353,15 @@ Section Thms.
     apply (keys_frame nonstr qs fss (sort_pairs L) x x' (rows_okb_P _ _ _ Hok) Hno H).
   Qed.
 
-  (* all matching field specs that end at the read path carry the same create flag. Not used by the proofs:
-     it is the domain on which the model is tied to the implementation (a create=false spec that ends at a
-     null scalar hides the entry in the scalar's Content, a later create=true spec for the same path would
-     surface it; FsSlice.MergeOne rejects such pairs and the default tables contain none). *)
-  Definition uniform_create (qs : list string) (fss : list fieldspec) (x : node) : bool :=
-    forallb (fun fs => forallb (fun fs' =>
-       negb (exact_match qs x fs && exact_match qs x fs') || Bool.eqb (fs_create fs) (fs_create fs')) fss) fss.
-
   (* hit: where a matching create=true field spec ends, exactly the directive's labels arrive *)
   Theorem exact_locations_hit : forall (L : pairs) (fss : list fieldspec) (x x' : node) (qs : list string),
-    rows_okb qs fss x = true -> uniform_create qs fss x = true ->
+    rows_okb qs fss x = true ->
     is_map x = true -> no_seq_along qs x = true ->
     has_create qs fss x = true ->
     label_filter nonstr L fss x = Ok x' ->
     labels_at qs x' = upd_all (sort_pairs L) (labels_at qs x).
   Proof.
-    intros L fss x x' qs Hok _ Hm Hn Hc H.
+    intros L fss x x' qs Hok Hm Hn Hc H.
     apply (keys_hit nonstr qs fss (sort_pairs L) x x' (rows_okb_P _ _ _ Hok) Hm Hn Hc H).
   Qed.
 End Thms.
@@ -651,11 +643,11 @@ Section Thms2.
   Qed.
 End Thms2.
 
-(* the generic two-object theorem on the domain where the model is tied to the implementation *)
+(* the generic two-object theorem (the former hypotheses uniform_create - the domain on which the model was tied
+   to the implementation before the repair R-setentry-null-scalar - are gone) *)
 Theorem selects_preserved_generic_u :
   forall (nonstr : string -> bool) (sp tp : list string) (fss : list fieldspec) (kvs : pairs) (s w s' w' : node),
     rows_okP sp fss s -> rows_okP tp fss w ->
-    uniform_create sp fss s = true -> uniform_create tp fss w = true ->
     is_map w = true -> no_seq_along tp w = true ->
     (has_exact sp fss s = true -> has_create tp fss w = true) ->
     (has_exact sp fss s = false ->
@@ -663,7 +655,7 @@ Theorem selects_preserved_generic_u :
     sub (labels_at sp s) (labels_at tp w) ->
     keys_pass nonstr fss kvs s = Ok s' -> keys_pass nonstr fss kvs w = Ok w' ->
     sub (labels_at sp s') (labels_at tp w').
-Proof. intros nonstr sp tp fss kvs s w s' w' H1 H2 _ _. apply selects_preserved_generic; auto. Qed.
+Proof. intros nonstr sp tp fss kvs s w s' w' H1 H2. apply selects_preserved_generic; auto. Qed.
 
 (* a Service and a Deployment under `labels: [{pairs: {app: new}, includeTemplates: true}]` *)
 Lemma selects_preserved_templates_refuted :
